@@ -188,3 +188,25 @@ func (broker *Broker) VerifReleaseStopNow() {
 	broker.stopGraceful = false
 	broker.stopMux.Unlock()
 }
+
+// VerifReleaseRetry feeds the files to the real startRetry loop through chRetry, closes the
+// channel and runs the loop until it returns (its input is empty). It returns what the loop
+// put on chScanned, in order. The buffers given to VerifReleaseNewBroker must hold len(files)
+// entries so that neither side blocks.
+func (broker *Broker) VerifReleaseRetry(files []sts.Polled) (requeued [][]sts.Hashed) {
+	for _, f := range files {
+		broker.chRetry <- f
+	}
+	close(broker.chRetry)
+	var wg sync.WaitGroup
+	wg.Add(1)
+	broker.startRetry(&wg)
+	for {
+		select {
+		case l := <-broker.chScanned:
+			requeued = append(requeued, l)
+		default:
+			return
+		}
+	}
+}
